@@ -336,6 +336,16 @@ fn parse_entry_integrity(raw: &str) -> Option<Integrity> {
     Some(sri)
 }
 
+/// An entry whose integrity cannot name a content file is an invalid entry
+/// for every reader: lookups and listings must agree on which entry of a
+/// key is the current one.
+fn usable_entry(entry: &SerializableMetadata) -> bool {
+    match &entry.integrity {
+        Some(raw) => parse_entry_integrity(raw).is_some(),
+        None => true,
+    }
+}
+
 /// Length of the data encoded by a canonical, padded, standard-alphabet
 /// base64 string, or `None` if the string is not one.
 fn base64_decoded_len(encoded: &str) -> Option<usize> {
@@ -401,7 +411,9 @@ fn bucket_entries(bucket: &Path) -> std::io::Result<Vec<SerializableMetadata>> {
             _ => continue,
         };
         if let Ok(serialized) = serde_json::from_str::<SerializableMetadata>(entry_str) {
-            entries.push(serialized);
+            if usable_entry(&serialized) {
+                entries.push(serialized);
+            }
         }
     }
     Ok(entries)
@@ -438,7 +450,9 @@ async fn bucket_entries_async(bucket: &Path) -> std::io::Result<Vec<Serializable
             _ => continue,
         };
         if let Ok(serialized) = serde_json::from_str::<SerializableMetadata>(entry_str) {
-            vec.push(serialized);
+            if usable_entry(&serialized) {
+                vec.push(serialized);
+            }
         }
     }
     Ok(vec)
